@@ -511,6 +511,17 @@ class Densify(EnvironmentFilter):
 
         self._lookup = defaultdict(factory)
 
+    def __getstate__(self):
+        #the factory of the lookup table is a closure over a generator, neither can be pickled
+        return (self._n_feats, self._method, self._context, self._action, dict(self._lookup))
+
+    def __setstate__(self, state):
+        *args, lookup = state
+        self.__init__(*args)
+        #the positions that were handed out already are taken from the new generator again
+        for _ in lookup: self._lookup.default_factory()
+        self._lookup.update(lookup)
+
     @property
     def params(self) -> Mapping[str, Any]:
         return { "dense_m": self._method, "dense_n": self._n_feats, "dense_c": self._context, "dense_a": self._action }
